@@ -7,7 +7,9 @@ Import ListNotations.
 
 (* ErrorOnFSErrors = false: whatever fails -- any number of faults at any operation site of any tree: root stat,
    open-dir, k-th directory read, open file, stat of an open file -- the scan completes (no abort, no panic),
-   provided the two sites singled out by tree_quiet are fault-free (see the two refutations below). *)
+   a failing lazy Stat under MaxFileSize included (the file is skipped) -- provided the sites singled out by
+   tree_quiet are fault-free (an unreadable .gitignore, see the refutation below; a Stat fault on a file when some
+   FileRequired consults api.Stat()). *)
 Theorem nonfatal_never_fails : forall c t,
   c_fatal c = false -> no_limits c = true -> no_xpanic c -> c_paths c = [] -> tree_quiet c t = true ->
   exists st, fs_result c t = WOk st Continue.
@@ -19,7 +21,7 @@ Print Assumptions nonfatal_never_fails.
 Theorem faults_contained : forall c t,
   c_fatal c = false -> no_limits c = true -> no_xpanic c -> c_paths c = [] -> tree_quiet c t = true ->
   wf_tree t = true ->
-  fs_calls c t = filter (fun ep => not_lost t (snd ep)) (fs_calls c (erase_faults t)).
+  fs_calls c t = filter (fun ep => not_lost c t (snd ep)) (fs_calls c (erase_faults t)).
 Proof. exact faults_contained_lemma. Qed.
 Print Assumptions faults_contained.
 
@@ -47,9 +49,9 @@ Print Assumptions faults_surface.
 (* a required, accepted, not ignored file within the size limit always produces its outcome event:
    Extract, or the open / stat error that is then part of the status *)
 Theorem required_file_outcome : forall c p size ff es e,
-  size_ok c size = true -> In e es -> req c e p size ff = true ->
+  size_ok c size = true -> (0 <? c_max_size c)%Z && ff_stat ff = false -> In e es -> req c e p size ff = true ->
   In (outcome_event e p ff) (ext_events c p size ff es false).
-Proof. intros c p size ff es e S. apply ext_events_required. rewrite S. reflexivity. Qed.
+Proof. intros c p size ff es e S L. apply ext_events_required; [rewrite S; reflexivity|rewrite L; reflexivity]. Qed.
 Print Assumptions required_file_outcome.
 
 (* ErrorOnFSErrors = true: the scan succeeds iff no traversal fault is reached *)
@@ -66,22 +68,14 @@ Theorem scan_status_derivation : forall c roots r,
 Proof. exact scan_status_lemma. Qed.
 Print Assumptions scan_status_derivation.
 
-(* REFUTED: "otherwise no single failure makes the scan fail".  A failing lazy Stat under MaxFileSize is returned
-   from handleFile and aborts the whole walk although filesystem errors are not fatal; files the fault-free scan
-   extracts are lost. *)
-Theorem lazy_stat_failure_aborts_refuted :
+(* REFUTED (still, after the fixes): "otherwise no single failure makes the scan fail".  An unreadable .gitignore
+   under UseGitignore is returned from handleFile as an error although filesystem errors are not fatal; the whole
+   walk aborts (no panic any more) and files the fault-free scan extracts are lost. *)
+Theorem unreadable_gitignore_aborts_refuted :
   exists c t, c_fatal c = false /\ no_limits c = true /\ c_paths c = [] /\ wf_tree t = true /\
-    exists st, fs_result c t = WOk st (Abort AbSize) /\ fs_calls c t = [] /\ fs_calls c (erase_faults t) <> [].
-Proof. exact lazy_stat_refuted_lemma. Qed.
-Print Assumptions lazy_stat_failure_aborts_refuted.
-
-(* REFUTED: "the scan still terminates without panicking".  An unreadable .gitignore under UseGitignore makes
-   handleFile return before pushing onto the gitignore stack; the deferred pop then slices [: -1]. *)
-Theorem unreadable_gitignore_panics_refuted :
-  exists c t, c_fatal c = false /\ no_limits c = true /\ c_paths c = [] /\ wf_tree t = true /\
-    exists st, fs_result c t = WPanic st PcSlice.
+    exists st, fs_result c t = WOk st (Abort AbGi) /\ fs_calls c t = [] /\ fs_calls c (erase_faults t) <> [].
 Proof. exact unreadable_gitignore_refuted_lemma. Qed.
-Print Assumptions unreadable_gitignore_panics_refuted.
+Print Assumptions unreadable_gitignore_aborts_refuted.
 
 (* non-vacuity: a tree with an unreadable directory and a file that cannot be opened, inside the domain *)
 Definition t_faulty : node :=
